@@ -22,6 +22,7 @@ RULE = ("exhaustive product: entry point (Output / SectionOutput / IO std+err / 
         "refused clear / overwrite) screen = stacked contents; non-trivial = at least one refused call")
 THEOREMS = ["gate_level", "gate_iff", "gate_monotone", "quiet_silent", "refused_call_is_invisible",
             "code_is_ideal_unless_clear_refused", "refused_text_never_appears", "gated_run_is_section_run",
+            "ideal_run_is_section_run", "code_run_is_ideal_run",
             "refused_arguments_do_not_matter", "gated_screen_is_stack", "groups_are_one_run"]
 TRUSTED = ["which gate calls guard each method body (Model/Gate.v path) is a transcription, checked by this exhaustive tie"]
 ASSUMPTIONS = ["verbosity is one of NORMAL/VERBOSE/VERY_VERBOSE/DEBUG (set_verbosity enforces it)",
